@@ -1137,6 +1137,17 @@ class NoopCM:
         self.value = value
 
 
+class SuppressCM:
+    """contextlib.suppress(*exceptions): exceptions of the given classes raised by the body are swallowed."""
+
+    def __init__(self, classes):
+        self.classes = tuple(classes)
+
+
+def x_suppress(it, args, kw):
+    return SuppressCM(args)
+
+
 def x_noop(it, args, kw):
     return None
 
@@ -1186,6 +1197,7 @@ def x_islice(it, args, kw):
 
 
 EXTERN = {
+    "contextlib.suppress": x_suppress,
     "itertools.cycle": x_cycle,
     "itertools.islice": x_islice,
     "enum.auto": x_enum_auto,
